@@ -30,4 +30,11 @@ PROPS = {
         "note": "worker count pinned to 2 (C11 varies it); conditions are a hand-written list of (text, predicate) pairs; engine labels rows per interface always and so does the reference",
         "design_ref": "§4 C08",
     },
+    "C03": {
+        "level": "model_checking",
+        "technique": "explicit-state exploration of write histories on the real GPDir / DBWriter (state = committed block list) against a list model, plus exhaustive single-mutation enumeration of metadata files through the real decoder",
+        "text": "Every history of 2-4 block writes (quick: 2-3), in every split into sessions, with up to 2 (thorough 3) deviations per history drawn from timestamps relative to the previous accepted write (regression, duplicate, +1, the maximal delta 2^32-1, delta overflow, first timestamp again), per-block counts at and beyond the 32-bit limit and large counters, is run on the real GPDir (sessions abandoned on a failed write, as DBWriter does) and through DBWriter.Write / WriteBulk; after every session a fresh reader must show exactly the blocks of completely accepted sessions with unaltered timestamps, counts and day totals, and plainly valid histories must be accepted. Decoder: for valid .blockmeta files of 0-3 blocks every truncation length, every byte x 5 values, every 8-byte header field x 8 boundary values and appended garbage must give an error or a self-consistent value, never a panic.",
+        "note": "counter values <= 2^61 (uint64 wrap of day totals outside the alphabet); one mutation per metadata file",
+        "design_ref": "§4 C03",
+    },
 }
